@@ -153,6 +153,9 @@ def judge : Suite where
           | some (a, b) =>
             let G := s.graph
             match out with
+            | ["fatal"] => (s, "bad:runner-died-or-exceeded-its-budget")
+            | ["hang"] => (s, "bad:hang")
+            | ["panic"] => (s, "bad:panic")
             | ["none"] => (s, judgeFind G a b (s.heur b) none)
             | c :: rest => match c.toNat?, parsePathToks rest with
                 | some c, some p => (s, judgeFind G a b (s.heur b) (some (c, p)))
